@@ -3,7 +3,8 @@
 (* C32, engine V.  trace.ndjson is recorded from the REAL FullSyncStrategy *)
 (* (real blockImporter, real BlockState) fed with the scenarios of         *)
 (* FullSyncMonitor_Gen.  Every line has the fields                         *)
-(*   ev    "reset" | "deliver" | "import" | "return"                       *)
+(*   ev    "reset" | "deliver" | "import" | "return" | "final" (b: the     *)
+(*         block the importer finalised on a verified justification)       *)
 (*   sc    scenario number                                                 *)
 (*   par   (reset) the block tree                                          *)
 (*   batch (deliver) the responses handed to Process: [dir, es: [b, st]]   *)
@@ -75,10 +76,22 @@ BatchClass == IF \E i \in 1..Len(last) : Len(last[i].es) = 0 THEN "empty-respons
 TReturn ==
   /\ Ev("return")
   /\ IF Trace[l].res # "panic" THEN TRUE
-     ELSE Report(l, "C32/Process/" \o BatchClass \o "/panic", "Process panicked")
+     ELSE Report(l, "C32/Process/" \o BatchClass \o "/panic/" \o Trace[l].why, "Process panicked")
   /\ l' = l + 1 /\ UNCHANGED <<par, known, offered, imported, seenBad, last, forged>>
 
-TNext == TReset \/ TDeliver \/ TImport \/ TReturn
+(* a justified block was imported and finalised (the importer calls SetFinalisedHash): the forks that do not pass through *)
+(* it are pruned from the node's block state; they are gone, so they are not "already imported" any more                    *)
+TFinal ==
+  /\ Ev("final")
+  /\ LET f == Trace[l].b
+         keep == IF f \in 1..Len(par) THEN SFKnown(par, f) ELSE SFBlocks(par)
+     \* a pruned block may be handed over again (it is not "already imported" any more); `known` keeps it: the statement
+     \* asks that a block's parent HAS been imported before it, and a fragment whose root was pruned between the node's own
+     \* check and the hand-over is refused by the importer without effect
+     IN imported' = imported \cap keep
+  /\ l' = l + 1 /\ UNCHANGED <<par, known, offered, seenBad, last, forged>>
+
+TNext == TReset \/ TDeliver \/ TImport \/ TReturn \/ TFinal
 TraceSpec == TInit /\ [][TNext]_tvars
 
 HighWater == TLCSet(1, IF l > TLCGet(1) THEN l ELSE TLCGet(1))
